@@ -29,15 +29,12 @@ SLACK = 2000               # pulls tolerated beyond what list semantics needs (D
 STEP_BUDGET = 3_000_000    # LINE events per subscribe(); a passing shape uses < 25 000, needed + SLACK pulls < 1.5e6
 MODEL_CAP = 400            # the list model may look at this many source elements before a draw is rejected
 MAX_NEEDED = 64
+RECURSION_LIMIT = 1000     # Python's default, in force while subscribe() runs (the worker itself raises it to 3000)
 
 SOURCES = ["from_iterable_count", "from_iterable_cycle", "range", "repeat_value", "generate", "repeat"]
 FAMILY = {"from_iterable_count": "from_iterable", "from_iterable_cycle": "from_iterable", "range": "range",
           "repeat_value": "repeat_value", "generate": "generate", "repeat": "repeat"}
 HAS_FACTORY_SCHEDULER = {"from_iterable_count", "from_iterable_cycle", "range", "repeat"}
-# file whose `subscribe` closure hosts the producer of each family (used only to CLASSIFY a violation, never to decide one)
-PRODUCER_FILE = {"from_iterable": "/observable/fromiterable.py", "range": "/observable/range.py",
-                 "generate": "/observable/generate.py", "repeat_value": "/observable/concat.py",
-                 "repeat": "/observable/concat.py"}
 SCHED_KINDS = ["singleton", "fresh-currentthread", "immediate"]
 SCHED_CONFIGS = ["default"] + ["%s=%s" % (w, k) for w in ("factory", "subscribe") for k in SCHED_KINDS]
 TERMINATORS = ["take", "first", "first_pred", "first_or_default", "take_while", "take_while_indexed", "element_at",
@@ -49,12 +46,15 @@ CARRIERS = ["none", "elementwise", "merge_never", "merge_op_never", "flat_map", 
 PAIRS = [(s, c) for s in SOURCES for c in SCHED_CONFIGS if not c.startswith("factory=") or s in HAS_FACTORY_SCHEDULER]
 SHAPES = [(s, c, k, t) for (s, c) in PAIRS for k in CARRIERS for t in TERMINATORS]
 
-CASES = {"quick": 960, "thorough": 3 * len(SHAPES)}
+# configurations in which every producer runs on the trampoline that Observable.subscribe set up
+TRAMPOLINE_CONFIGS = ("default", "factory=singleton", "subscribe=singleton")
+N_TRAMPOLINE_SHAPES = sum(1 for sh in SHAPES if sh[1] in TRAMPOLINE_CONFIGS)
+CASES = {"quick": 720, "thorough": len(SHAPES) + 2 * N_TRAMPOLINE_SHAPES}
 REQUIRED = {
     "set:sources": len(SOURCES), "set:terminators": len(TERMINATORS), "set:carriers": len(CARRIERS),
     "set:sched_configs": len(SCHED_CONFIGS), "set:source_x_sched_config": len(PAIRS),
-    "cancelled_within_budget": {"quick": 300, "thorough": 8000},
-    "cancelled_on_trampoline_of_subscribe": {"quick": 200, "thorough": 5000},
+    "cancelled_within_budget": {"quick": 250, "thorough": 9000},
+    "cancelled_on_trampoline_of_subscribe": {"quick": 180, "thorough": 9000},
     "selfcheck_pull_monitor_fired": 1, "selfcheck_step_monitor_fired": 1, "selfcheck_passing_run_counted": 1,
 }
 UNIT_TIMEOUT = {"quick": 300, "thorough": 1800}
@@ -62,14 +62,15 @@ UNIT_TIMEOUT = {"quick": 300, "thorough": 1800}
 RULE = ("cases = (source, scheduler configuration, carrier, terminator) shapes from the cartesian product "
         "{from_iterable(count), from_iterable(cycle), range(0,10**12), repeat_value, generate, repeat()} x "
         "{default, factory=/subscribe= x singleton / fresh CurrentThreadScheduler() / ImmediateScheduler()} x "
-        "%d carriers x %d terminators (%d shapes; quick = seeded sample, thorough = every shape 3 times), parameters "
+        "%d carriers x %d terminators (%d shapes; quick = seeded sample of 720, thorough = every shape once plus two more parameter draws of every shape whose scheduler is default / the CurrentThreadScheduler singleton), parameters "
         "(start/step/cycle list, element-wise chain, counts, target value of the predicate) drawn from "
         "case_rng(seed, id, idx) and rejected until the LIST model terminates after <= %d source elements. Verdict per "
         "case: subscribe() must return, before the source produced more than needed + %d elements and before %d LINE "
         "events, with exactly the elements list semantics gives, and nothing may be produced after it returned. "
         "non-trivial = the model needs >= 1 source element; distinct = digest of (shape, parameters). "
-        "Violations are keyed by mechanism: 'C14:inline-producer:<source family>:<scheduler config>' when the producer "
-        "was executing INSIDE its own subscribe call (no disposable can exist yet), otherwise "
+        "Violations are keyed by mechanism: 'C14:inline-producer:<source family>:<scheduler config>' when the elements "
+        "were being produced while an Observable.subscribe() was still setting up its subscription (the scheduler ran "
+        "the producer inline, so the disposable that could stop it did not exist yet), otherwise "
         "'C14:<not-cancelled|no-return|raised|output|late-production>:<family>:<config>:<carrier>:<terminator>'. "
         "EXCLUDED because they cannot terminate by their own semantics under a FIFO trampoline (they are executed "
         "once per run and only counted as observations): combine_latest(infinite, x) and zip(infinite, x) with the "
@@ -82,11 +83,13 @@ RULE = ("cases = (source, scheduler configuration, carrier, terminator) shapes f
 ASSUMPTIONS = [
     "sys.monitoring (PEP 669) delivers a LINE event for every executed line of Python code and propagates an "
     "exception raised by the callback into the monitored code (self-checked in every unit)",
-    "a run that ends by RecursionError inside the library but still returns from subscribe() within the pull budget "
-    "(range/generate/repeat under ImmediateScheduler: one Python frame group per element) is counted as an observation "
-    "(stopped_only_by_recursion_limit), not as a violation: DESIGN.md fixes the slack at 2000 elements for this reason; "
-    "the worker's recursion limit is 3000",
-    "mechanism classification (not the verdict) looks for the producer's subscribe frame on the Python stack by file name",
+    "a run in which the producer is stopped by a RecursionError that the library swallows (range/generate/repeat under "
+    "ImmediateScheduler recurse once per element) and subscribe() nevertheless returns within the pull budget with the "
+    "right elements is counted as an observation (stopped_only_by_recursion_limit), not as a violation: DESIGN.md fixes "
+    "the slack at 2000 elements for this reason; subscribe() runs under Python's default recursion limit (1000); when "
+    "the RecursionError escapes from subscribe() or reaches the observer it IS a violation",
+    "mechanism classification (not the verdict) looks for a `set_disposable` frame of reactivex/observable/observable.py "
+    "on the Python stack at pulls 1, 2, 4, 8, ... and at the pull that trips the budget",
     "the harness iterators, counters and the Subject used by take_until are harness code",
 ]
 
@@ -105,13 +108,15 @@ class _ModelStarved(Exception):
 # --------------------------------------------------------------------------------------------------------------------
 # monitors
 
-def producer_inline(family: str) -> bool:
-    """True when the producer's own `subscribe` call (the one that will return its disposable) is still on the stack."""
-    suffix = PRODUCER_FILE[family]
+def producer_inline() -> bool:
+    """True when an element is being produced while some Observable.subscribe() is still setting up its subscription
+    (a `set_disposable` frame of reactivex/observable/observable.py is on the stack): whatever that subscribe() will
+    return does not exist yet, so no downstream dispose can reach the producer.  With the trampoline that
+    Observable.subscribe sets up, producers only ever run from the trampoline's drain loop, after set-up returned."""
     f = sys._getframe(1)
     while f is not None:
         co = f.f_code
-        if co.co_name == "subscribe" and co.co_filename.endswith(suffix):
+        if co.co_name == "set_disposable" and co.co_filename.endswith("/observable/observable.py"):
             return True
         f = f.f_back
     return False
@@ -123,18 +128,20 @@ class Pulls:
         self.n = 0
         self.budget = 10 ** 9
         self.inline_first: Any = None
-        self.inline_at_trip: Any = None
+        self.inline_last: Any = None     # sampled at pulls 1, 2, 4, 8, ... and when the budget trips
         self.trips = 0
 
     def tick(self) -> None:
         self.n += 1
-        if self.n == 1:
-            self.inline_first = producer_inline(self.family)
-        if self.n > self.budget:
+        n = self.n
+        if n & (n - 1) == 0:
+            self.inline_last = producer_inline()
+            if n == 1:
+                self.inline_first = self.inline_last
+        if n > self.budget:
             self.trips += 1
-            if self.inline_at_trip is None:
-                self.inline_at_trip = producer_inline(self.family)
-            raise BudgetExceeded("pulls", self.n)
+            self.inline_last = producer_inline()
+            raise BudgetExceeded("pulls", n)
 
 
 class CountingIterable:
@@ -184,8 +191,6 @@ class StepMonitor:
         self.limit = 10 ** 12
         self.trips = 0
         self.recursion_errors = 0
-        self.inline_at_trip: Any = None
-        self.family = "from_iterable"
         self.mon.register_callback(self.tool, self.mon.events.LINE, self._line)
         self.mon.register_callback(self.tool, self.mon.events.RAISE, self._raise)
 
@@ -195,21 +200,17 @@ class StepMonitor:
             # raise once, then give the unwinding code (finally blocks of the trampoline) room before raising again
             self.limit = self.n + 100_000
             self.trips += 1
-            if self.inline_at_trip is None:
-                self.inline_at_trip = producer_inline(self.family)
             raise BudgetExceeded("steps", self.n)
 
     def _raise(self, code: Any, offset: int, exc: BaseException) -> None:
         if isinstance(exc, RecursionError):
             self.recursion_errors += 1
 
-    def start(self, budget: int, family: str) -> None:
+    def start(self, budget: int) -> None:
         self.n = 0
         self.limit = budget
         self.trips = 0
         self.recursion_errors = 0
-        self.inline_at_trip = None
-        self.family = family
         self.mon.set_events(self.tool, self.mon.events.LINE | self.mon.events.RAISE)
 
     def stop(self) -> int:
@@ -647,12 +648,18 @@ _ORDER_CACHE: dict = {}
 
 
 def shape_of_cached(seed: int, idx: int) -> tuple:
-    order = _ORDER_CACHE.get(seed)
-    if order is None:
+    """Case index -> shape: a seeded permutation of all shapes, followed by (a cycle over) the permutation restricted
+    to the trampoline configurations."""
+    cached = _ORDER_CACHE.get(seed)
+    if cached is None:
         order = list(range(len(SHAPES)))
         case_rng(seed, ID, "shape-order").shuffle(order)
-        _ORDER_CACHE[seed] = order
-    return SHAPES[order[idx % len(SHAPES)]]
+        cached = (order, [i for i in order if SHAPES[i][1] in TRAMPOLINE_CONFIGS])
+        _ORDER_CACHE[seed] = cached
+    order, extra = cached
+    if idx < len(order):
+        return SHAPES[order[idx]]
+    return SHAPES[extra[(idx - len(order)) % len(extra)]]
 
 
 def gen_case(seed: int, idx: int) -> dict:
@@ -708,13 +715,16 @@ def execute(obs: Any, ssched: Any, pulls: Pulls, needed: int, step_budget: int =
     outcome = "returned"
     exc: Any = None
     disp = None
-    steps.start(step_budget, pulls.family)
+    old_limit = sys.getrecursionlimit()
+    sys.setrecursionlimit(RECURSION_LIMIT)
+    steps.start(step_budget)
     try:
         try:
             disp = obs.subscribe(lambda v: out.append(("N", v)), lambda e: out.append(("E", e)),
                                  lambda: out.append(("C", None)), scheduler=ssched)
         finally:
             n_steps = steps.stop()
+            sys.setrecursionlimit(old_limit)
     except BudgetExceeded as b:
         outcome = "budget:" + b.kind
         exc = b
@@ -723,7 +733,7 @@ def execute(obs: Any, ssched: Any, pulls: Pulls, needed: int, step_budget: int =
         exc = e
     r = {"outcome": outcome, "exc": exc, "out": out, "steps": n_steps, "pulls": pulls.n,
          "recursion_errors": steps.recursion_errors, "inline_first": pulls.inline_first,
-         "inline_at_trip": pulls.inline_at_trip if pulls.inline_at_trip is not None else steps.inline_at_trip,
+         "inline_last": pulls.inline_last,
          "late_pulls": 0, "late_out": 0, "trampoline_idle": trampoline_idle()}
     if not r["trampoline_idle"]:
         repair_trampoline()
@@ -776,8 +786,9 @@ def run_case(seed: int, idx: int, res: UnitResult) -> None:
     res.note("source_x_sched_config", case["source"] + "|" + config)
     res.count("line_events_total", r["steps"])
     res.count("source_elements_needed_total", needed)
-    if r["inline_first"]:
-        res.count("producer_ran_inside_its_subscribe_call")
+    if r["inline_first"] or r["inline_last"]:
+        res.count("produced_during_subscription_setup")
+        res.note("configs_producing_during_subscription_setup", config)
     if not r["trampoline_idle"]:
         res.inconclusive.append("thread trampoline left busy after case %d (%s)" % (idx, r["outcome"]))
 
@@ -803,7 +814,7 @@ def run_case(seed: int, idx: int, res: UnitResult) -> None:
     if why is None:
         over = r["pulls"] - needed
         res.count("cancelled_within_budget")
-        if config in ("default", "factory=singleton", "subscribe=singleton"):
+        if config in TRAMPOLINE_CONFIGS:
             res.count("cancelled_on_trampoline_of_subscribe")
         res.count("overshoot=0" if over == 0 else ("overshoot=1..8" if over <= 8 else "overshoot>8"))
         if r["recursion_errors"]:
@@ -812,13 +823,13 @@ def run_case(seed: int, idx: int, res: UnitResult) -> None:
         elif over > 8:
             res.note("large_overshoot_without_recursion_error", "%s:%s:%s:%s" % (family, config, case["carrier"], case["term"]))
         return
-    inline = r["inline_at_trip"] if r["outcome"].startswith("budget:") else r["inline_first"]
+    inline = r["inline_last"]
     if inline:
         mech = "C14:inline-producer:%s:%s" % (family, config)
     else:
         mech = "C14:%s:%s:%s:%s:%s" % (kind, family, config, case["carrier"], case["term"])
     res.violation(mech, {"why": why, "case": desc, "needed_source_elements": needed, "pulled": r["pulls"],
-                         "line_events": r["steps"], "producer_inside_its_subscribe_call": bool(inline),
+                         "line_events": r["steps"], "produced_during_subscription_setup": bool(inline),
                          "recursion_errors_raised": r["recursion_errors"],
                          "expected": show(case["expected"]) , "expected_terminal": case["terminal"],
                          "observed_so_far": show_out(r["out"])},
